@@ -117,7 +117,9 @@ func (t *Table) Resize(size int) {
 		base := uintptr(unsafe.Pointer(&t.raw[0]))
 		aligned := (base + uintptr(bucketSize-1)) &^ uintptr(bucketSize-1)
 
-		ptr := unsafe.Pointer(aligned)
+		// derive the aligned pointer from the slice itself; converting a computed
+		// uintptr back to unsafe.Pointer is not a valid unsafe.Pointer pattern.
+		ptr := unsafe.Pointer(&t.raw[aligned-base])
 		t.data = unsafe.Slice((*bucket)(ptr), requiredBuckets)
 	}
 }
